@@ -91,6 +91,14 @@ func (g *gen) Generate(typs []types.Type) error {
 	return g.genSlice(sliceType, typs[1])
 }
 
+// ordered reports whether values of typ can be compared with < and >: every basic type
+// except bool and the complex types, which are compared with the derived compare function
+// like all other types.
+func ordered(typ types.Type) bool {
+	b, ok := typ.(*types.Basic)
+	return ok && b.Info()&types.IsOrdered != 0
+}
+
 func (g *gen) genTwo(typ, typ2 types.Type) error {
 	p := g.printer
 	g.Generating(typ, typ2)
@@ -102,10 +110,9 @@ func (g *gen) genTwo(typ, typ2 types.Type) error {
 	p.P("// Deprecated: In favour of generics.")
 	p.P("func %s(a, b %s) %s {", name, typeStr, typeStr)
 	p.In()
-	switch typ.(type) {
-	case *types.Basic:
+	if ordered(typ) {
 		p.P("if a > b {")
-	default:
+	} else {
 		p.P("if %s(a, b) > 0 {", g.compare.GetFuncName(typ, typ))
 	}
 	p.In()
@@ -139,10 +146,9 @@ func (g *gen) genSlice(typ *types.Slice, typ2 types.Type) error {
 	p.P("list = list[1:]")
 	p.P("for i, v := range list {")
 	p.In()
-	switch etyp.(type) {
-	case *types.Basic:
+	if ordered(etyp) {
 		p.P("if v > m {")
-	default:
+	} else {
 		p.P("if %s(v, m) > 0 {", g.compare.GetFuncName(etyp, etyp))
 	}
 	p.In()
